@@ -161,7 +161,10 @@ def check_bingham(R, mon, model, S, max_conc, key, **info):
         k2 = key + ('/bingham-eigenvalues' if amp < 1e6 else '/bingham-eigenvalues/cancellation-amplification>=1e6')
         if 1e-5 < res <= 2e-4:
             R.count('Bingham eigenvalue residual between 1e-5 and 2e-4 (solver accuracy on near-degenerate scatter)')
-        R.check(mon, res <= 2e-4, k2, f'Bingham eigenvalues do not solve grad log c = scatter eigenvalues (residual {res:.3e}, amplification {amp:.1e})', dev=res, amp=amp, **info)
+        # the solver's own stopping rule (scipy defaults 1e-8) leaves residuals <= 1e-7 on well separated scatter eigenvalues (measured: 150 of
+        # 150 random scatters); only nearly degenerate ones or concentrations with a cancelling normaliser stop at 1e-5 .. 2e-4
+        regular = np.min(np.diff(np.sort(ls))) >= 1e-2 and ls.min() >= 1e-2 and amp < 1e2
+        R.check(mon, res <= (5e-6 if regular else 2e-4), k2, f'Bingham eigenvalues do not solve grad log c = scatter eigenvalues (residual {res:.3e}, amplification {amp:.1e})', dev=res, amp=amp, **info)
 
 
 def run_trainer(case, R):
